@@ -11,7 +11,7 @@ import gen, pipeline, model, impl, shex_text, shacl_text, findings as F, oracle
 from props import base
 from shexer import consts as C
 
-PROPS_MODULES = ["ShexerModel.Props.C05", "ShexerModel.Props.C05b", "ShexerModel.Props.GenStrShapeName", "ShexerModel.Props.GenStrPrefixize"]
+PROPS_MODULES = ["ShexerModel.Props.C05", "ShexerModel.Props.C05b", "ShexerModel.Props.GenStrShapeName", "ShexerModel.Props.GenStrPrefixize", "ShexerModel.Props.GenStrTune"]
 DEPS = ["S.build_shapes_name_for_class_uri", "S.serializer_prefixize_uri_if_possible"]
 replay = base.replay
 
@@ -280,8 +280,10 @@ def run(ctx):
                                 viol.append({"what": "call %d on one Shaper: sh:node object is not a declared sh:NodeShape" % (step + 1), "object": o,
                                              "shacl": text, **pipeline.case_json(g, dict(cfg, th=th))})
         except Exception as e:
-            obs = {"kind": "crash", "exc": type(e).__name__, "cfg": cfg, "triples": g}
-            if not F.match(kf, obs):
+            fid = F.match(kf, {"kind": "exception", "exc": type(e).__name__, "msg": str(e)[:200], "cfg": cfg, "triples": g})     # as in the SHACL family below
+            if fid:
+                reproduced.add(fid)
+            else:
                 viol.append({"what": "repeated calls on one Shaper: %s %s" % (type(e).__name__, str(e)[:120]), **pipeline.case_json(g, cfg)})
     # inputs that declare prefixes of their own (Turtle read by rdflib): the declarations of the document are merged into the
     # prefix map after the shapes prefix was chosen, so they can collide with it or with the caller's prefixes
